@@ -304,6 +304,42 @@ fn sandboxed(c: &Value, root: &str) -> Value {
     c2
 }
 
+/// lexical normal form of an argument as the harness' own domain filter sees it (absolute, no `.`/`..`/empty components);
+/// `base` is what a relative argument is relative to (the cwd "/" or, for a symlink target, the link's directory)
+fn norm(p: &str, base: &str) -> String {
+    let joined = if p.starts_with('/') { p.to_string() } else { format!("{}/{}", base, p) };
+    let mut out: Vec<&str> = vec![];
+    for c in joined.split('/') {
+        match c {
+            "" | "." => {},
+            ".." => {
+                out.pop();
+            },
+            x => out.push(x),
+        }
+    }
+    format!("/{}", out.join("/"))
+}
+
+/// does the spelling climb above the root?  (the sandbox root has a parent, "/" has none: such arguments mean different things)
+fn climbs_out(p: &str, base: &str) -> bool {
+    let joined = if p.starts_with('/') { p.to_string() } else { format!("{}/{}", base, p) };
+    let mut depth = 0i32;
+    for c in joined.split('/') {
+        match c {
+            "" | "." => {},
+            ".." => {
+                depth -= 1;
+                if depth < 0 {
+                    return true;
+                }
+            },
+            _ => depth += 1,
+        }
+    }
+    false
+}
+
 fn through_link(t: &Tree, p: &str) -> bool {
     // an intermediate component of p is a link
     let mut cur = parent(p);
@@ -403,6 +439,26 @@ fn main() {
             calls.push(call_b("copy_b", a, b, 0, 0, "", "F"));
         }
     }
+    // respelled arguments: relative to the cwd (the root on both sides), unclean, trailing separators; symlink targets relative
+    // to the link's directory and not in their shortest spelling
+    if !chains {
+        for (op, a) in [("mkfile", "a//b"), ("mkfile", "./b"), ("mkdir_p", "./a/./b/"), ("mkdir_p", "b/../a/a"), ("remove", "b/../a"), ("remove_all", "./a/"),
+                        ("exists", "a/../b"), ("is_dir", "a/"), ("is_file", "./a/b"), ("read_all", "a//b"), ("abs", "a/./b/.."), ("readlink", "./a"), ("readlink_abs", "b/."),
+                        ("paths", "./a"), ("all_paths", "a/.."), ("entry", "./b"), ("mode", "b//")] {
+            calls.push(call(op, a, ""));
+        }
+        calls.push(call_d("write_all", "a/../b", b"y"));
+        calls.push(call_d("append_all", "./a/b", b"y"));
+        for (a, b) in [("./a", "b/"), ("a/b", "./b/a"), ("a/.", "/b//"), ("b", "a/../a/b")] {
+            calls.push(call("move_p", a, b));
+            calls.push(call("copy", a, b));
+        }
+        for l in ["/b", "/a/b", "/b/a", "a/a", "./b"] {
+            for tg in ["./a", "../a", "a/../b", "./a/b/", "b/..", "..", "/a/./b", "/b/../a"] {
+                calls.push(call("symlink", l, tg));
+            }
+        }
+    }
     let std = Stdfs::new();
     let mut id = 0u64;
     for (ti, t0) in trees.iter().enumerate() {
@@ -433,6 +489,11 @@ fn main() {
         for c in &calls {
             let s = |v: &Value| v.as_array().unwrap().iter().map(|x| x.as_str().unwrap()).collect::<String>();
             let (a, b) = (s(&c["a"]), s(&c["b"]));
+            if climbs_out(&a, "/") || (!b.is_empty() && climbs_out(&b, &if c["op"] == "symlink" { parent(&norm(&a, "/")) } else { "/".to_string() })) {
+                continue;
+            }
+            let a = norm(&a, "/");
+            let b = if b.is_empty() { b } else if c["op"] == "symlink" { norm(&b, &parent(&a)) } else { norm(&b, "/") };
             if through_link(t, &a) || (!b.is_empty() && through_link(t, &b)) {
                 continue; // outside C02's domain
             }
